@@ -48,7 +48,7 @@ RULES[("stateful_set_utils.go", 374)] = "equiv: skips the status write only when
 DEAD_PC = "dead: RealPodControl.CreatePods / DeletePod / validateControllerRef / getPodsPrefix are not called by this controller (it only uses PatchPod from this file)"
 for l in (81, 84, 87, 90, 93, 104, 105, 108, 109, 111, 123, 127, 129, 132, 135, 147, 151, 154, 214):
     RULES[("controller_utils.go", l)] = DEAD_PC
-for l in (78, 81, 85):
+for l in (78, 81, 85, 86, 87, 88, 93):
     RULES[("pod.go", l)] = "dead: UpdatePodCondition is not called by this controller"
 RULES[("controller_ref_manager.go", 100)] = "outside: a pod that vanished under its release patch counts as claimed for the rest of that one reconcile"
 RULES[("controller_ref_manager.go", 104)] = "equiv: the caller ignores the boolean when an error is returned"
